@@ -5,7 +5,7 @@ namespace LexModel
 open LexProto
 
 def Lexer.allowed (L : Lexer) (subset : List Nat) : List Nat :=
-  (L.scanList (L.sorted subset)).filter (fun t => !L.ignore.contains t)
+  (L.sorted subset).filter (fun t => !L.ignore.contains t)
 
 /-- the run of all pieces does not depend on the fuel once there is enough of it -/
 theorem lexAllPieces_fuel (L : Lexer) (F : Facts) (subset : List Nat) (n : Nat)
